@@ -10,7 +10,7 @@ Record rview := mkRv {
   rv_return_code : option Z }.
 
 (** what run() / Promise.join() did *)
-Inductive raise_kind := RThreadException | RFailure | RCommandTimedOut | RUnexpectedExit.
+Inductive raise_kind := RThreadException | RFailure | RCommandTimedOut | RUnexpectedExit | RAuthFailure.
 
 Inductive outcome :=
 | Return (r : rview)
